@@ -346,7 +346,9 @@ inductive NS where
 mutual
 /-- `Wrapf.wrap_namespace(ns)` for a nested namespace, reduced to its splicer-stack operations:
     classes and functions are wrapped between balanced push/pop pairs, every nested namespace is
-    entered after `_update_splicer_top(<its scope>)`, and the node's own name is restored at the end. -/
+    entered after `_update_splicer_top(<its scope>)` -- also one that is flattened into the enclosing
+    module (since a `fix:` commit in /repo; before it a flattened namespace kept whatever name was on the
+    stack) -- and the node's own name is restored at the end. -/
 def wrapNs (s : Stack) : NS → Res Stack
   | .mk scope kids =>
     match push s "class".toList with
